@@ -122,6 +122,11 @@ def opening_fully_used(ck, prog, mg=None, rule="G"):
              not match_cmp(g, ("!=",), has_callee("normalize_indexes"), has_field("BatchMerkleProof", "nodes"))]
     require(ck, rule, "get_root:all-nodes-used", m, "reject iff some node vector of the opening was not consumed to its end",
             strength=("always", "per-iteration"))
+    if rule != "G":
+        # (C10's own inventory states this guard itself) a surplus node VECTOR is unbound decoded content just like a surplus node: the count
+        # of node vectors is compared with the number of normalised positions (the per-vector check above stops at the shorter list)
+        m = [g for g in errs("InvalidProof") if g.fn is gr and match_cmp(g, ("!=",), has_callee("normalize_indexes"), has_field("BatchMerkleProof", "nodes"))]
+        require(ck, rule, "get_root:node-vector-count", m, "reject iff the number of node vectors differs from the number of normalised positions")
 
 
 def merkle_scopes(prog, an):
@@ -247,7 +252,9 @@ def leaf_order(ck, prog):
         g = flow(f)
         ck.saw(f)
         for b, t in f.calls():
-            if not (callee_name(t) or "").endswith("Index::index") or not is_leaf_vec(t):
+            cn_ = callee_name(t) or ""
+            checked_get = cn_.endswith(("slice::get", "Vec::get")) and len(t["args"]) == 2     # `leaves.get(i)`: the checked spelling of `leaves[i]`
+            if not ((cn_.endswith("Index::index") and is_leaf_vec(t)) or checked_get):
                 continue
             rw = g.walk(ops=[t["args"][0]], at=(b, "T"), through=lambda tt: (callee_name(tt) or "").endswith(("Deref::deref", "DerefMut::deref_mut")))
             if (BMP, "leaves") not in g.fields_in(rw):
